@@ -3,10 +3,12 @@ from vlib.framework import PUnit, LUnit, BUnit
 from bounded import b_build as B
 from contracts import build_file as BF
 from contracts import ligands as LG
+from contracts import effects as E
 
 P_UNITS = [PUnit("tag-nodes", [BF.TAG_NODES, BF.TAG_NODES_RW], BF.REG),
            PUnit("molecule-selection", [BF.PARSE_GEOMETRY, BF.FINALIZE], BF.REG),
-           PUnit("residue-selection", [LG.FIND_NODES], LG.REG)]
+           PUnit("residue-selection", [LG.FIND_NODES], LG.REG),
+           LUnit("split-relabels-once", E.lemma_split_once)]
 
 
 def build(tier, seed):
